@@ -214,6 +214,10 @@ func (fr *frame) valEq(a, b *Val) Term {
 		e := fr.ft.c.Fresh("ifeq", SBool)
 		fr.ft.c.Assume(e, mkImp(mkAnd(mkEq(a.L[0], b.L[0]), mkEq(a.L[1], b.L[1])), e))
 		fr.ft.c.Assume(e, mkImp(e, mkEq(a.L[0], b.L[0])))
+		// dynamic types of size zero (e.g. binary.littleEndian): equal types imply equal values
+		for _, z := range []int64{leTag(fr.ft.e), beTag(fr.ft.e)} {
+			fr.ft.c.Assume(e, mkImp(mkAnd(mkEq(a.L[0], intConst(z)), mkEq(b.L[0], intConst(z))), e))
+		}
 		return e
 	}
 	var cs []Term
